@@ -261,6 +261,10 @@ func (c *Ctx) Finish(verifDir string, seed int, explanation string, trusted []st
 		"wall_s":      time.Since(c.start).Seconds(),
 		"violations":  nViol,
 	}
+	if full := os.Getenv("FPCHECK_FULL"); full != "" {
+		fb, _ := json.Marshal(c.Obs)
+		os.WriteFile(filepath.Join(full, c.Prop+".obligations.json"), fb, 0o644)
+	}
 	b, _ := json.MarshalIndent(ev, "", " ")
 	evPath := filepath.Join(verifDir, "evidence", c.Prop+".json")
 	if err := os.WriteFile(evPath, b, 0o644); err != nil {
